@@ -29,6 +29,16 @@ BINARY = ["add", "add", "sub", "radd_tensor", "rsub_tensor", "mul", "matmul", "m
 UNARY = ["sum", "prod", "expand", "repeat", "squeeze", "unsqueeze", "permute", "transpose", "add_diagonal", "add_jitter", "add_low_rank", "cat_rows", "mul_scalar", "rmul_scalar", "div_scalar", "neg_mul"]
 
 
+def _well_conditioned(ref):
+    """add_low_rank / cat_rows update a root of A AND a root of A^{-1} (their docstrings): A must be invertible.  The
+    operand is only used when its dense reference is numerically positive definite (lambda_min >= 1e-3 lambda_max)."""
+    try:
+        ev = torch.linalg.eigvalsh(0.5 * (ref + ref.transpose(-1, -2)))
+    except Exception:
+        return False
+    return bool((ev[..., 0] >= 1e-3 * ev[..., -1].clamp_min(1e-300)).all()) and bool((ev[..., -1] > 0).all())
+
+
 def _exclusions():
     ex = set()
     for e in load_findings():
@@ -359,7 +369,7 @@ def check(case):
                 dd = torch.diag_embed(d64.expand(*ref_a.shape[:-2], n) if d64.dim() else d64.expand(n))
                 ref, mag = ref_a + dd, mag_a + dd.abs()
         elif k == "add_low_rank":
-            if not a["psd"] or ref_a.shape[-1] != ref_a.shape[-2] or ref_a.shape[-1] < 2:
+            if not a["psd"] or ref_a.shape[-1] != ref_a.shape[-2] or ref_a.shape[-1] < 2 or not _well_conditioned(ref_a):
                 continue
             n = ref_a.shape[-1]
             q = 1 + p % 2
@@ -370,7 +380,7 @@ def check(case):
             ref, mag = ref_a + B64 @ B64.T, mag_a + B64.abs() @ B64.abs().T
             loose = True
         elif k == "cat_rows":
-            if not a["psd"] or ref_a.shape[-1] != ref_a.shape[-2] or nb > 0:
+            if not a["psd"] or ref_a.shape[-1] != ref_a.shape[-2] or nb > 0 or not _well_conditioned(ref_a):
                 continue
             n = ref_a.shape[-1]
             Bv = torch.tensor([[((p // (j + 2)) % 5 - 2) / 8.0 for j in range(n)]], dtype=tdt)
@@ -493,6 +503,16 @@ DIAGISH = {"Diag", "ConstantDiag", "Identity", "KroneckerDiag"}
 
 GETITEM_OPEN = {"Kernel", "Matmul", "BatchRepeat", "BlockDiag", "BlockInterleaved", "Cat", "TransposePermutation"}
 
+def _squeeze_step(c):
+    """squeeze (or prod over a size-1 batch dimension, which is implemented as squeeze) = __getitem__ with an int batch
+    index on an operand whose class has an open indexing defect; BatchRepeat also arises from an earlier repeat / expand."""
+    ks = _kinds(c)
+    idx = [i for i, k in enumerate(ks) if k in ("squeeze", "prod")]
+    if not idx:
+        return False
+    return _first(c) == "matmul" or bool(GETITEM_OPEN & _all_classes(c)) or bool({"repeat", "expand"} & set(ks[: idx[-1]]))
+
+
 TRIGGERS = {
     "scalar_batched": lambda c: any(s.get("s", {}).get("kind") == "batched" and s["k"] in ("mul_scalar", "rmul_scalar", "div_scalar") for s in c["steps"][:1]),
     "interp_matmul_operator": lambda c: _first(c) == "matmul" and _heads(c)[0] == "Interpolated",
@@ -500,15 +520,11 @@ TRIGGERS = {
     "repeat_step": lambda c: "repeat" in _kinds(c) and (_nonsquare0(c) or _first(c) in ("matmul", "cat")),
     # squeeze() is __getitem__ with an int batch index: it inherits the open C03 __getitem__ defects of these classes
     # (BatchRepeat also arises from an earlier repeat / expand step)
-    "squeeze_step": lambda c: "squeeze" in _kinds(c)
-    and (_first(c) == "matmul" or bool(GETITEM_OPEN & _all_classes(c)) or bool({"repeat", "expand"} & set(_kinds(c)[: _kinds(c).index("squeeze")]))),
+    "squeeze_step": _squeeze_step,
     "sum_step": lambda c: "sum" in _kinds(c) and (bool({"Interpolated", "KroneckerDiag", "KroneckerAddedDiag"} & _all_classes(c)) or (_first(c) in ("add", "sub", "radd_tensor", "rsub_tensor") and bool(DIAGISH & set(_heads(c))))),
     # TransposePermutation cannot carry a batch shape: any program in which a batch dimension meets one
     "expand_transpose_permutation": lambda c: "TransposePermutation" in _all_classes(c) and (bool({"expand", "repeat", "unsqueeze"} & set(_kinds(c))) or _any_batched(c)),
     "cat_transpose_permutation": lambda c: "cat" in _kinds(c) and "TransposePermutation" in _all_classes(c),
-    "add_low_rank_then_root_use": lambda c: any(
-        k == "add_low_rank" and bool({"prod", "mul", "add_low_rank", "cat_rows", "add", "sub"} & set(_kinds(c)[i + 1 :])) for i, k in enumerate(_kinds(c))
-    ),
     "zero_add_diagonal": lambda c: bool({"add_diagonal", "add_jitter"} & set(_kinds(c))) and "Zero" in _all_classes(c),
 }
 
